@@ -28,22 +28,24 @@ start: greeting NAME+ tail?
 greeting: "hello" | "bye"
 tail: "!" NUM
 %import .c12common (NAME, NUM)
-%ignore " "
+%ignore /[ \\n]+/
 '''
 G3 = '''
 start: "hello" NAME+ ["!" NUM] "."
 %import c12lib (NAME, NUM)
-%ignore " "
+%ignore /[ \\n]+/
 '''
 G2 = '''
 start: "hello" NUM+ mark
 mark: "?" | "!"
 %import .c12common (NAME, NUM)
-%ignore " "
+%ignore /[ \\n]+/
 '''
 COMMON_V1 = 'NAME: /[a-z]+/\nNUM: /[0-9]+/\n'
 COMMON_V2 = 'NAME: /[b-z]+/\nNUM: /[0-9]+/\n'        # same byte length as V1: a change that stat() metadata cannot reveal
-PROBES = ['hello x .', 'hello abc !7 .', 'hello x', 'jello x', 'hello abc def !7', 'bye a', 'hello 12 ?', 'hello 1 2 !', 'hello', 'hello x !', 'hello a_b', 'hello x ! 7', '', 'hellox', 'byebye x']
+PROBES = ['hello x .', 'hello abc !7 .', 'hello x', 'jello x', 'hello abc def !7', 'bye a', 'hello 12 ?', 'hello 1 2 !', 'hello', 'hello x !', 'hello a_b', 'hello x ! 7', '', 'hellox', 'byebye x',
+          # newlines inside ignored text: line/column of tokens and errors after them
+          'hello x\ny !7 .', 'hello\n\nx\n?', 'bye a\n b\n', 'hello 12\n  ?', 'hello x\n!\n7\n.']
 
 if P:
     import lark.lark as larkmod
@@ -107,8 +109,10 @@ if P:
         6: (G3, {'import_paths': [LIB_B]}, COMMON_V1, SCRATCH),
         7: (G3, {'import_paths': [LIB_A], 'maybe_placeholders': False}, COMMON_V1, SCRATCH),   # an option whose non-default value is falsy
         8: (G1, {}, COMMON_V1, DIR_B),                               # same text in another directory: the relative import finds another file
+        9: (G1, {}, '', SCRATCH),                                    # the imported file emptied: an uncached build fails (NAME is not defined)
     }
     NCONF = P.get('nconf', len(CONFIGS))
+    PINH = P.get('first')
     MTIME = 1600000000
 
     def _write_common(text):
@@ -131,7 +135,13 @@ if P:
             out.append(hs.outcome(lk.parse, t))
         return out
 
-    REF = {c: behaviour(build(c, False)) for c in CONFIGS}
+    def _ref(c):
+        try:
+            return behaviour(build(c, False))
+        except lg.GrammarError as e:
+            return ('build-error', type(e).__name__)
+    REF = {c: _ref(c) for c in CONFIGS}
+    assert REF[9] == ('build-error', 'GrammarError') and all(isinstance(REF[c], list) for c in range(9))
     _same = [(a, b) for a in REF for b in REF if a < b and REF[a] == REF[b]]
     assert _same in ([], [(3, 8)]), 'configurations must be behaviourally distinct on the probes (3 and 8 share their imported content): %s' % _same
     MemFS.files.clear()
@@ -166,6 +176,17 @@ def _check_after(rec, cfg, what):
 
 def _build_and_check(rec, cfg, label):
     REBUILDS[0] = 0
+    if isinstance(REF[cfg], tuple):
+        # the grammar itself is in error: the cached construction must fail like the uncached one, not serve an older parser
+        try:
+            build(cfg, 'cache.bin')
+        except Exception as e:
+            if type(e).__name__ == REF[cfg][1]:
+                return True
+            rec['fkey'] = 'raises:%s' % type(e).__name__
+            return hs.fail(rec, '%s: Lark(cache=...) raised %s where an uncached build raises %s' % (label, type(e).__name__, REF[cfg][1]))
+        rec['fkey'] = 'wrong-parser:%s' % label.split(':')[0]
+        return hs.fail(rec, '%s: a parser was served although an uncached build of this configuration fails with %s' % (label, REF[cfg][1]))
     try:
         lk = build(cfg, 'cache.bin')
     except Exception as e:
@@ -271,7 +292,7 @@ def _hist_body(rec, hist):
 
 def hist(hist: List[int]) -> bool:
     """
-    pre: 1 <= len(hist) <= 3
+    pre: 1 <= len(hist) <= 3 and (PINH is None or hist[0] == PINH)
     post: _
     """
     return hs.run_path(_hist_body, (hist,), corner=lambda hist: len(hist) == 3 and hs.sel(hist[2], NCONF) == 4)
@@ -298,14 +319,15 @@ def plan(tier, seed):
             slices.append({'id': 'flip:all:%d/32' % part, 'func': 'flip', 'mode': 'realised',
                            'params': {'kind': 'flip', 'positions': 'all', 'part': [part, 32]}, 'timeout': 3000,
                            'twin': part == 0, 'bound': {'positions': 'every byte', 'kinds': [f[0] for f in FLIPS]}})
-    slices.append({'id': 'hist:len<=3', 'func': 'hist', 'mode': 'realised', 'params': {'kind': 'hist'}, 'timeout': 600,
-                   'bound': {'builds': 3, 'configurations': 9}})
+    for first in range(10):
+        slices.append({'id': 'hist:len<=3:first%d' % first, 'func': 'hist', 'mode': 'realised', 'params': {'kind': 'hist', 'first': first}, 'timeout': 600,
+                       'twin': first == 0, 'bound': {'builds': 3, 'configurations': 10}})
     meta = {
         'rule': 'one path per (fault kind, position) / per history; non-trivial = the file content actually differs from the valid one / the history mixes configurations',
         'technique': 'CrossHair solver-closed enumeration of fault positions and build histories, realised (pickle.load is a C extension: it realises its input anyway); '
                      'behavioural equivalence with an uncached build on a probe set; rebuild counter on load_grammar',
         'functions_encoded': ['lark.lark.Lark.__init__ (cache load / fallback / save)', 'Lark.save/_load', 'lark.load_grammar.verify_used_files', 'lark.utils.FS (stubbed)'],
-        'bounds': {'probe_inputs': len(PROBES), 'fault_positions': 'opcode boundaries (quick) / every byte (thorough)', 'history_length': 3, 'configurations': 9},
+        'bounds': {'probe_inputs': len(PROBES), 'fault_positions': 'opcode boundaries (quick) / every byte (thorough)', 'history_length': 3, 'configurations': 10},
         'outside_bounds': ['multi-byte corruption', 'file systems that violate the stub contract (torn writes)', 'pickles crafted to execute code'],
         'stubs_and_assumes': ['lark logger silenced (failed cache loads log tracebacks)', 'FS replaced by an in-memory store: open(rb) returns the stored bytes or raises FileNotFoundError; open(wb) replaces the content when closed',
                               'equivalence is judged on %d probe inputs' % len(PROBES)],
